@@ -20,6 +20,10 @@ pub const LETTERS: &[&str] = &[
     "frame window base one past the newest frame sent (no groups)", "frame window base two past the newest frame sent", "frame window base 1000 past the newest frame sent", "frame window base behind the sender's (stale)",
     "packet window base 64 past the next packet id", "packet window base half the id space ahead",
     "MERGED: first acknowledgement of the oldest unacknowledged logged frame, once alone and once in one group with a later frame that is already acknowledged (the two runs are compared with each other)",
+    "COMBINED: the same first acknowledgement alone vs. in one ack frame followed by a group for the newest frame with the wrong nonce",
+    "COMBINED: the same, the wrong-nonce group first",
+    "COMBINED: the same first acknowledgement alone vs. followed by a group for a frame id not sent yet",
+    "COMBINED: the same, the group for the unsent frame first",
 ];
 const MERGED: usize = 18;
 
@@ -61,6 +65,15 @@ fn craft(letter: usize, tr: &Trace, cfg: &LwCfg) -> Option<Vec<u8>> {
             let newer = *logged.iter().rev().find(|id| acked.contains(id) && id.wrapping_sub(old) >= 1 && id.wrapping_sub(old) < 32 && nonce_of(**id).is_some())?;
             if letter == 18 { mk(vec![AckGroup { base_id: old, bitfield: 1, nonce: nonce_of(old)? }]) }
             else { mk(vec![AckGroup { base_id: old, bitfield: 1 | 1 << newer.wrapping_sub(old), nonce: nonce_of(old)? ^ nonce_of(newer)? }]) }
+        }
+        119 | 120 | 121 | 122 => {
+            let mut acked: std::collections::HashSet<u32> = Default::default();
+            for a in genuine.iter() { for g in a.frame_acks.iter() { for b in 0..32u32 { if g.bitfield >> b & 1 != 0 { acked.insert(g.base_id.wrapping_add(b)); } } } }
+            let logged: Vec<u32> = (0..p.tx_frame_log_len).map(|i| p.tx_frame_log_base.wrapping_add(i)).collect();
+            let old = *logged.iter().find(|id| !acked.contains(id) && nonce_of(**id).is_some())?;
+            let good = AckGroup { base_id: old, bitfield: 1, nonce: nonce_of(old)? };
+            let bogus = if letter <= 120 { let id = newest?; if id == old || acked.contains(&id) { return None; } AckGroup { base_id: id, bitfield: 1, nonce: !nonce_of(id)? } } else { AckGroup { base_id: next, bitfield: 1, nonce: true } };
+            mk(if letter % 2 == 1 { vec![good, bogus] } else { vec![bogus, good] })
         }
         _ => None,
     }
@@ -110,7 +123,7 @@ pub fn build(quick: bool) -> PropRun {
                 let mut base = run_lw(&cfg, &si, &env, ch, None);
                 let mut violations = Vec::new();
                 let mut injected = false;
-                if r > 0 && k == MERGED {
+                if r > 0 && k >= MERGED {
                     // the reference run is the one with the first-time acknowledgement alone
                     let mut c1 = Chooser::new(ch.taken[skip..].to_vec(), vec![]);
                     let mut ok = false;
@@ -118,7 +131,7 @@ pub fn build(quick: bool) -> PropRun {
                     base = run_lw(&cfg, &si, &env, &mut c1, Some(&mut inj));
                     if !ok { return ExecResult { outcome: 9, ..Default::default() }; }
                 }
-                let kk = if k == MERGED { 118 } else { k };
+                let kk = if k >= MERGED { 100 + k } else { k };
                 if r > 0 {
                     let mut c2 = Chooser::new(ch.taken[skip..].to_vec(), vec![]);
                     let mut inj = |round: usize, side: usize, tr: &Trace, _hc: &mut uflow::verif::HalfConnection| -> Vec<Vec<u8>> {
